@@ -715,16 +715,22 @@ func c04Consumed(c *Ctx) {
 			})
 		}
 		// flag-fed fields of the options literal
-		tr := &origin.Tracer{Sx: symx.New(c.P.IsRepoFunc)}
+		// (the literal may be filled in a step of the command, from flags the
+		// command read into a struct of its own)
+		tr := &origin.Tracer{CG: c.P.CallGraph(), Sx: symx.New(c.P.IsRepoFunc)}
 		n := 0
-		ssau.ForEachInstr(run, false, func(in ssa.Instruction) {
+		var bodies []ssa.Instruction
+		for _, g := range withSteps(c, run, 2) {
+			ssau.ForEachInstr(g, false, func(in ssa.Instruction) { bodies = append(bodies, in) })
+		}
+		for _, in := range bodies {
 			st, ok := in.(*ssa.Store)
 			if !ok {
-				return
+				continue
 			}
 			fa, ok := st.Addr.(*ssa.FieldAddr)
 			if !ok || ssau.NamedOf(fa.X.Type()) != optType {
-				return
+				continue
 			}
 			fromFlag := false
 			for _, rt := range tr.Roots(st.Val) {
@@ -734,12 +740,12 @@ func c04Consumed(c *Ctx) {
 			}
 			constTrue := ssau.IsConstBool(st.Val, true)
 			if !fromFlag && !(constTrue && ssau.FieldName(fa) == "PipelineOnly") {
-				return
+				continue
 			}
 			n++
 			f := ssau.FieldName(fa)
 			r.Check(R[f], "O-2", "cli."+spec.cmdVar+"#option-consumed:"+f, c.P.Pos(st.Pos()), "SearchOptions."+f+" is read by "+spec.engine+" or its callees", "SearchOptions."+f+" is filled from a command-line flag but nothing on the path of "+spec.engine+" reads it: the flag is parsed, echoed and ignored")
-		})
+		}
 		r.Floor("O-2", spec.cmdVar+" flag-fed filter options", n, 3)
 	}
 }
